@@ -303,6 +303,10 @@ pub fn run(ctx: &Arc<Ctx>) {
     for il in (0..=300usize).step_by(ctx.tier.pick(3usize, 1)) {
         cases.push(Case::Sign { ks: ANNEX_KS.into(), id: format!("len:{}", il), msg_len: 20, r: ANNEX_R.into(), tag: "idlen-sweep".into() });
     }
+    // identities on both sides of the 16-bit bit-length limit that SM2 has and SM9 has not (8191 / 8192 bytes), and of 2^16 bytes
+    for il in [8191usize, 8192, 9000, 65535, 65536, 70000] {
+        cases.push(Case::Sign { ks: ANNEX_KS.into(), id: format!("len:{}", il), msg_len: 20, r: ANNEX_R.into(), tag: "id-of-8191-bytes-and-more".into() });
+    }
     // every message length 0..=300 at one (master, identity, r): the hash input 02 || M || w crosses every buffer size
     for ml in 0..=ctx.tier.pick(300usize, 1200) {
         cases.push(Case::Sign { ks: ANNEX_KS.into(), id: "Alice".into(), msg_len: ml, r: ANNEX_R.into(), tag: "mlen-sweep".into() });
